@@ -273,7 +273,7 @@ def _lit(d, desc, t, depth, ctx, nullable, kinds, risky, in_obj):
 def gen_schema(d, *, max_types=8, rich_names=True, defaults=0.3, custom_scalars=True,
                mutation=True, subscription=False, input_heavy=False, descriptions=False,
                want_custom_operations=None, scalar_names=("DateTime", "JSONish", "Money"), n_scalars=(0, 2),
-               scalar_weight=1):
+               scalar_weight=1, n_enums=None):
     desc = SchemaDesc()
     desc.want_custom_operations = want_custom_operations
     tnames = d.shuffle(TYPE_NAMES)
@@ -281,7 +281,7 @@ def gen_schema(d, *, max_types=8, rich_names=True, defaults=0.3, custom_scalars=
     def take():
         return tnames.pop()
 
-    n_enum = d.int(1, 3) if input_heavy else d.int(0, 2)
+    n_enum = d.int(*n_enums) if n_enums else (d.int(1, 3) if input_heavy else d.int(0, 2))
     n_scalar = d.int(*n_scalars) if custom_scalars else 0
     n_input = d.int(2, 4) if input_heavy else d.int(0, 2)
     n_iface = d.weighted([(2, 0), (3, 1), (4, 2), (2, 3)])
